@@ -92,6 +92,13 @@ func c11Build(r *rand.Rand, dir string) *c11Env {
 			nl.Edges = append(nl.Edges[:at], append([]*sbom.Edge{e}, nl.Edges[at:]...)...)
 		}
 	}
+	if r.Intn(4) == 0 && len(nl.Nodes) >= 2 {
+		// two stored nodes with one identifier and different content (a list a caller assembled by hand or a
+		// decoder delivered): nothing read-only may reconcile them on the operand
+		dup := mk(r, nl.Nodes[r.Intn(len(nl.Nodes))].Id)
+		at := r.Intn(len(nl.Nodes) + 1)
+		nl.Nodes = append(nl.Nodes[:at], append([]*sbom.Node{dup}, nl.Nodes[at:]...)...)
+	}
 	// realistic package URLs in several spellings (the purl lookups otherwise never match anything)
 	for _, nd := range nl.Nodes {
 		if r.Intn(2) == 0 {
